@@ -77,6 +77,8 @@ async def drive(peer, sess: M.Session, ops, *, world=None, check_tree=True, sett
         # a data connection that is already attached (made before an earlier, refused transfer
         # command) will be used by the server whether or not the peer planned to connect
         will_connect = opts.get("connect", "before") != "never" or (sess.dc and sess.logged and sess.listener)
+        if v in M.TRANSFER and peer.passive_port is None and not sess.dc:
+            will_connect = False  # no address was ever announced: the peer cannot connect
         if on_step is not None:
             on_step(st, "before", sess)  # may swap the model's tree (per-user base directories)
         exp = sess.expect(v, arg, will_connect=will_connect, user_limit_reached=opts.get("limit_reached", False))
@@ -86,7 +88,7 @@ async def drive(peer, sess: M.Session, ops, *, world=None, check_tree=True, sett
         try:
             if v in M.TRANSFER and sess.logged and sess.listener:
                 # make (or reuse) the data connection as planned
-                if will_connect and opts.get("connect", "before") == "before" and not sess.dc:
+                if will_connect and opts.get("connect", "before") == "before" and not sess.dc and peer.passive_port is not None:
                     await peer.data_connect()
                     sess.dc = True
                 code, lines = await peer.cmd(line)
